@@ -47,6 +47,25 @@ META = {
 }
 
 
+def o3_resolve_vs_construct(ctx, rid='C09.O3', M=None):
+    """whatever resolves to bool/float is in the domain of the PyYAML constructor that then runs"""
+    M = M or resolver_model(ctx.P)
+    loc = 'yatiml/loader.py'
+    bool_l = M.tag_lang(M.T_load, T + 'bool')
+    float_l = M.tag_lang(M.T_load, T + 'float')
+    r = ctx.rule(rid, 'resolution agrees with construction (bool_values keys; domain of construct_yaml_float)',
+                 floor=2)
+    w = subset(bool_l, M.rx_lang(M.bool_ctor_rx))
+    r.check(w is None, 'every string resolving to bool lower-cases to a key of SafeConstructor.bool_values %s'
+            % sorted(M.bool_values), 'yatiml.loader:Loader:bool-resolve-vs-construct', loc,
+            '%r resolves to bool but construct_yaml_bool raises KeyError on it' % w, {'string': w})
+    w = subset(float_l, M.ref('float_ctor_domain'))
+    r.check(w is None, 'every string resolving to float is in the domain of construct_yaml_float',
+            'yatiml.loader:Loader:float-resolve-vs-construct', loc,
+            '%r resolves to float but construct_yaml_float raises ValueError on it' % w, {'string': w})
+    r.done()
+
+
 def run(ctx):
     P = ctx.P
     M = resolver_model(P)
@@ -91,17 +110,7 @@ def run(ctx):
             'string %r resolves to float but is not a YAML 1.2 core float' % w, {'string': w})
     r.done()
 
-    r = ctx.rule('C09.O3', 'resolution agrees with construction (bool_values keys; domain of construct_yaml_float)',
-                 floor=2)
-    w = subset(bool_l, M.rx_lang(M.bool_ctor_rx))
-    r.check(w is None, 'every string resolving to bool lower-cases to a key of SafeConstructor.bool_values %s'
-            % sorted(M.bool_values), 'yatiml.loader:Loader:bool-resolve-vs-construct', loc,
-            '%r resolves to bool but construct_yaml_bool raises KeyError on it' % w, {'string': w})
-    w = subset(float_l, M.ref('float_ctor_domain'))
-    r.check(w is None, 'every string resolving to float is in the domain of construct_yaml_float',
-            'yatiml.loader:Loader:float-resolve-vs-construct', loc,
-            '%r resolves to float but construct_yaml_float raises ValueError on it' % w, {'string': w})
-    r.done()
+    o3_resolve_vs_construct(ctx, 'C09.O3', M)
 
     r = ctx.rule('C09.O4', 'typing of every other tag is PyYAML\'s: {Tag_load = t} = {Tag_PyYAML = t}', floor=3)
     for tg in M.tags(M.pristine):
@@ -131,6 +140,8 @@ def run(ctx):
                               'float_dfa_states': float_l.size(),
                               'buckets_load': sorted(str(k) for k in M.T_load),
                               'reference_regexes': {k: v[0] for k, v in REF.items()}}
+    from . import shared as S
+    S.r01_5_scalar(ctx)
     if ctx.tier == 'thorough':
         ctx.extra['dfa_selftest'] = dfa_selftest(M)
 
